@@ -24,7 +24,8 @@ def load_checks():
     return out
 
 
-CHECKS = load_checks()
+CLAIMED = set(open(os.path.join(HERE, 'tools', 'claimed.txt')).read().split())
+CHECKS = {k: v for k, v in load_checks().items() if k in CLAIMED}
 
 PENDING_REASON = 'check not built yet in this round of work; see DESIGN.md section 7 for the planned model and theorems'
 
